@@ -268,6 +268,10 @@ class CFFFontSet(object):
                 topDict = TopDict(
                     GlobalSubrs=self.GlobalSubrs, cff2GetGlyphOrder=cff2GetGlyphOrder
                 )
+                # Use the CFF2 Top DICT operators, as for a table read from binary:
+                # otherwise the charset that compile() fills in would be emitted.
+                topDict.defaults = buildDefaults(topDictOperators2)
+                topDict.order = buildOrder(topDictOperators2)
                 self.topDictIndex = TopDictIndex(None, cff2GetGlyphOrder)
             self.topDictIndex.append(topDict)
             for element in content:
